@@ -4,7 +4,7 @@ from __future__ import annotations
 import time, traceback
 import z3
 from .symexec import Interp, Unsupported, Obligation, SAdt
-from .interp4 import Interp4 as Interp2
+from .interp5 import Interp5 as Interp2
 from .speceval import Val, SpecError
 from .calls import spec_bool, spec_term
 from .vc import discharge, Verdict
@@ -30,12 +30,21 @@ def lemma_instances(I, c, env, lemmas):
                 qvars.append(qc)
                 lenv[lv] = Val(ls, qc)
         v = I.w.eval(_ast.parse(lm.expr, mode="eval").body, lenv, SpecFn(lname, [], "Bool", "spec"), want="Bool")
-        out.append(z3.ForAll(qvars, v.v) if qvars else v.v)
+        if qvars:
+            pats = []
+            if getattr(lm, "trigger", ""):
+                pt = I.w.eval(_ast.parse(lm.trigger, mode="eval").body, lenv, SpecFn(lname, [], "?", "spec"))
+                pats = [pt.v]
+            out.append(z3.ForAll(qvars, v.v, patterns=pats) if pats else z3.ForAll(qvars, v.v))
+        else:
+            out.append(v.v)
     return out
 
 
 def verify_contract(w, src, db, c, lemmas=None, timeout_ms=10000, relevance=None):
     lemma_fn = (lambda I, env: lemma_instances(I, c, env, lemmas or {})) if c.lemmas else None
+    if lemma_fn is not None:
+        lemma_fn.names = {n for n, _ in c.lemmas if n in (lemmas or {})}
     return _verify_contract(w, src, db, c, lemma_fn, timeout_ms, relevance)
 
 
@@ -75,7 +84,16 @@ def _verify_contract(w, src, db, c, lemma_fn=None, timeout_ms=10000, relevance=N
     verdicts = []
     try:
         if c.harness is not None:
+            I.q_axioms = []
+            I.available_lemmas = set(getattr(lemma_fn, "names", ()))
+            if lemma_fn is not None:
+                for ax in lemma_fn(I, {}):
+                    (I.q_axioms if z3.is_quantifier(ax) else I.axioms).append(ax)
             obs = c.harness(I, c)
+            if not c.modifies and c.pure:
+                nviol = sum(1 for ob in obs if ob.kind == "F" and ob.name.endswith(":frame"))
+                obs.append(Obligation(f"F:{short}:reads-only", [], z3.BoolVal(nviol == 0), c.name, "F",
+                                      f"on every explored path every store write targets an object allocated in this activation ({nviol} writes outside the frame)"))
         else:
             obs = contract_obligations(I, c, lemma_fn)
     except (Unsupported, SpecError, ExtractError) as ex:
@@ -88,10 +106,27 @@ def _verify_contract(w, src, db, c, lemma_fn=None, timeout_ms=10000, relevance=N
         if key in seen:
             continue
         seen.add(key)
-        v = discharge(ob, list(I.axioms) + list(getattr(I, "q_axioms", [])), I.nat_consts, timeout_ms)
+        if ob.name.endswith(":reads-only"):
+            continue                                   # derived below from the verdicts of the frame obligations
+        if ob.kind == "F" and z3.is_false(ob.goal):
+            # "this write is unreachable": a reachability question about the path condition alone; the imported (quantified)
+            # lemmas are consequences of the definitions and cannot make a reachable path unreachable
+            v = discharge(ob, list(I.axioms), I.nat_consts, timeout_ms)
+            if v.status == "unknown":
+                v = discharge(ob, list(I.axioms) + list(getattr(I, "q_axioms", [])), I.nat_consts, timeout_ms)
+        else:
+            v = discharge(ob, list(I.axioms) + list(getattr(I, "q_axioms", [])), I.nat_consts, timeout_ms)
         if relevance and v.status == "refuted" and v.kind == "R":
             v.relevant = relevance_check(I, ob, v, relevance, timeout_ms)
         verdicts.append(v)
+    for ob in obs:
+        if ob.name.endswith(":reads-only"):
+            frames = [v for v in verdicts if v.kind == "F" and v.name.split("#")[0].endswith(":frame")]
+            bad = [v for v in frames if v.status != "discharged"]
+            st = "discharged" if not bad else ("refuted" if any(v.status == "refuted" for v in bad) else "unknown")
+            verdicts.append(Verdict(ob.name, st, "derived", 0.0, {}, "", ob.where,
+                                    f"no reachable store write targets an object that was not allocated in this activation "
+                                    f"({len(frames)} candidate writes, {len(bad)} reachable or undecided: {[v.name for v in bad][:4]})", "F"))
     # make names unique
     names = {}
     for v in verdicts:
@@ -116,6 +151,7 @@ def contract_obligations(I, c, lemma_fn=None):
         env[p] = Val(s, const)
     pre = [spec_bool(I, r, env, c.name) for r in c.requires]
     I.q_axioms = []
+    I.available_lemmas = set(getattr(lemma_fn, "names", ()))
     if lemma_fn is not None:
         for ax in lemma_fn(I, env):
             (I.q_axioms if z3.is_quantifier(ax) else I.axioms).append(ax)     # quantified lemmas only at discharge time
@@ -174,6 +210,10 @@ def contract_obligations(I, c, lemma_fn=None):
                   except Unsupported as ex:
                       obs.append(Obligation(f"{tag}.unchanged-on-raise[{m}]", p.pc, z3.BoolVal(False), where, "R", str(ex)))
     obs.extend(I.obligations)
+    if not c.modifies:
+        nviol = sum(1 for ob in obs if ob.kind == "F" and ob.name.endswith(":frame"))
+        obs.append(Obligation(f"F:{short}:reads-only", [], z3.BoolVal(nviol == 0), c.name, "F",
+                              f"on all {len(paths)} paths every store write targets an object allocated in this activation ({nviol} writes outside the frame)"))
     for ob in obs:
         for k_, v_ in env.items():
             ob.vars.setdefault(k_, v_)
